@@ -373,9 +373,14 @@ impl Workload for Load {
             for (name, st) in &sum.results {
                 if let Some(i) = idx_of(name) {
                     let ok = match st {
+                        // Success only for an operation that ran and returned Ok; Failed never for
+                        // one that ran and returned Ok (an error, a panic, or a job skipped after
+                        // cancellation may be reported as failed); Cancelled only for a job whose
+                        // operation did not run. The property does not fix whether a skipped job
+                        // is listed as Failed or Cancelled, so both conventions are accepted.
                         0 => ran[i] && cfg.outcomes[i] == OK,
-                        1 => (ran[i] && cfg.outcomes[i] == ERR) || (!ran[i] && started[i].is_some()),
-                        _ => started[i].is_none(),
+                        1 => !(ran[i] && cfg.outcomes[i] == OK),
+                        _ => !ran[i],
                     };
                     if !ok {
                         fail(
